@@ -53,6 +53,8 @@ def cases(tier, seed):
             "nmol": int(rng.integers(4, 9)), "iseed": int(rng.integers(0, 2**31)),
             "cost": float(np.prod(shape)) / 500 + 2,
         })
+    if tier == "thorough":
+        out.append({"kind": "suite", "cost": 400.0, "iseed": 0})
     return out
 
 
@@ -101,6 +103,12 @@ def _mech(order, non_finite, window_empty, last_plane):
 
 
 def run(case):
+    if case.params.get("kind") == "suite":
+        from vcheck.suite_run import run_suite_with_contracts
+
+        run_suite_with_contracts(case, ('K3',))
+        case.nontrivial("suite")
+        return
     import dask.array as da
     from acryo import SubtomogramLoader, Molecules
     from acryo._utils import SubvolumeOutOfBoundError
